@@ -1,5 +1,6 @@
 import TR.Lemmas.Bulkhead2
 import TR.Lemmas.BulkheadMulti
+import TR.Lemmas.BulkheadWait
 /-!
 # C07 — the bulkhead never loses capacity and rejects only by timeout
 -/
@@ -164,5 +165,285 @@ example :
     let ms := runM { max := 1, maxWait := some 10 } mops
     (ms.insts 0).log = [.innerCall 1 0, .result 2 .timeout] ∧ (ms.insts 1).log = [.innerCall 3 1] ∧
     (ms.insts 1).running = [3] ∧ (ms.insts 0).now = 10 ∧ (ms.insts 1).now = 10 := by decide
+
+/-! ## "rejected exactly `max_wait` after it arrived" (audit B, C07 clause c)
+
+"Arrived" is the first poll of the call future (that is where the code arms `timeout(max_wait, acquire)`); the model
+keeps that instant in the ghost `firstPoll`. `arrival_is_first_poll` ties the ghost to the operation history,
+`deadline_is_arrival_plus_wait` ties the armed deadline to it, `rejected_not_before_deadline` /
+`rejected_at_deadline` / `waits_until_deadline` are the two directions of "exactly". (That the runtime WAKES the caller at
+the deadline so that it is polled then is observed by the waker monitor, not modelled.) -/
+
+/-- The ghost arrival instant of `c` is the clock reading at a `poll c` of the history at which `c` had never been
+polled before (`fresh` = call future created, never polled). -/
+theorem arrival_is_first_poll (cfg : Cfg) (ops : List Op) (c t : Nat)
+    (h : lookup (run cfg ops).firstPoll c = some t) :
+    ∃ pre post, ops = pre ++ Op.poll c :: post ∧ (run cfg pre).fresh.contains c = true ∧ (run cfg pre).now = t :=
+  firstPoll_origin cfg ops c t h
+
+/-- … and there is only one such poll: once a caller has been polled for the first time it is never "never polled"
+again, whatever anybody does afterwards — so "the arrival of `c`" is well defined. -/
+theorem first_poll_is_unique (cfg : Cfg) (pre ops' : List Op) (c : Nat)
+    (hf : (run cfg pre).fresh.contains c = true) : c ∉ (run cfg (pre ++ [.poll c] ++ ops')).fresh := by
+  have := first_poll_once cfg (run cfg pre) (inv2_reachable cfg pre) c hf ops'
+  simpa [run, List.foldl_append] using this
+
+/-- **The deadline of every waiting caller is its arrival instant plus `max_wait`**, in every reachable state; the
+arrival lies in the past. (With `max_wait = 0` nobody ever waits: `reject_when_full_never_queues`.) -/
+theorem deadline_is_arrival_plus_wait (cfg : Cfg) (ops : List Op) (c w : Nat)
+    (hq : c ∈ (run cfg ops).queue) (hw : cfg.maxWait = some w) :
+    ∃ t, lookup (run cfg ops).firstPoll c = some t ∧ lookup (run cfg ops).deadline c = some (t + w) ∧
+      t ≤ (run cfg ops).now := by
+  obtain ⟨t, h1, h2⟩ := (waitInv_reachable cfg ops).dl c hq w hw
+  exact ⟨t, h1, h2, (waitInv_reachable cfg ops).past c t h1⟩
+
+theorem reject_when_full_never_queues (cfg : Cfg) (ops : List Op) (hw : cfg.maxWait = some 0) :
+    (run cfg ops).queue = [] :=
+  (waitInv_reachable cfg ops).zero hw
+
+/-- **Not earlier.** After any history, a step (any operation) that answers `c` with the wait-timeout error is a poll
+of `c`, a `max_wait = w` is configured, `c` arrived at `t`, and `t + w ≤ now`; the answer is the only event of the step.
+Either it is the arrival itself (`w = 0`, no permit free, `t = now`), or `c` was waiting without a permit and its
+deadline `t + w` has been reached. -/
+theorem rejected_not_before_deadline (cfg : Cfg) (ops : List Op) (op : Op) (c : Nat)
+    (h : Ev.result c .timeout ∈ (stepS cfg (run cfg ops) op).log.drop (run cfg ops).log.length) :
+    op = .poll c ∧ (stepS cfg (run cfg ops) op).log = (run cfg ops).log ++ [Ev.result c .timeout] ∧
+    ∃ w t, cfg.maxWait = some w ∧ lookup (stepS cfg (run cfg ops) op).firstPoll c = some t ∧
+      t + w ≤ (run cfg ops).now ∧
+      (((run cfg ops).fresh.contains c = true ∧ (run cfg ops).free = 0 ∧ w = 0 ∧ t = (run cfg ops).now) ∨
+       ((run cfg ops).fresh.contains c = false ∧ (run cfg ops).assigned.contains c = false ∧
+          (run cfg ops).queue.contains c = true ∧ lookup (run cfg ops).firstPoll c = some t ∧
+          lookup (run cfg ops).deadline c = some (t + w))) :=
+  timeout_step cfg (run cfg ops) op c (waitInv_reachable cfg ops) h
+
+/-- The same over whole histories: every `err:timeout` in a reachable log was produced by one particular `poll c` of
+the history, made at an instant `≥ arrival + max_wait`. -/
+theorem rejection_instant (cfg : Cfg) (ops : List Op) (c : Nat) (h : Ev.result c .timeout ∈ (run cfg ops).log) :
+    ∃ pre post w t, ops = pre ++ Op.poll c :: post ∧ cfg.maxWait = some w ∧
+      lookup (run cfg (pre ++ [.poll c])).firstPoll c = some t ∧ t + w ≤ (run cfg pre).now := by
+  obtain ⟨pre, op, post, heq, hm⟩ := mem_log_origin cfg ops _ h
+  obtain ⟨hop, _, w, t, hw, ht, hle, _⟩ := rejected_not_before_deadline cfg pre op c hm
+  subst hop
+  exact ⟨pre, post, w, t, heq, hw, by rw [run_snoc]; exact ht, hle⟩
+
+/-- **Not later.** After any history, a caller that is waiting without a permit and is polled at or after
+`arrival + max_wait` IS rejected by that poll: the step emits exactly its `err:timeout`, it leaves the queue, and
+nothing else moves (no permit, no call in flight). -/
+theorem rejected_at_deadline (cfg : Cfg) (ops : List Op) (c w t : Nat)
+    (hq : c ∈ (run cfg ops).queue) (ha : c ∉ (run cfg ops).assigned) (hw : cfg.maxWait = some w)
+    (ht : lookup (run cfg ops).firstPoll c = some t) (hnow : t + w ≤ (run cfg ops).now) :
+    (stepS cfg (run cfg ops) (.poll c)).log = (run cfg ops).log ++ [Ev.result c .timeout] ∧
+    c ∉ (stepS cfg (run cfg ops) (.poll c)).queue ∧
+    (stepS cfg (run cfg ops) (.poll c)).running = (run cfg ops).running ∧
+    (stepS cfg (run cfg ops) (.poll c)).free = (run cfg ops).free ∧
+    (stepS cfg (run cfg ops) (.poll c)).assigned = (run cfg ops).assigned := by
+  obtain ⟨t', h1, h2, _⟩ := deadline_is_arrival_plus_wait cfg ops c w hq hw
+  have : t' = t := by rw [ht] at h1; cases h1; rfl
+  subst this
+  exact reject_step_effect cfg _ (inv2_reachable cfg ops) c _ hq ha h2 hnow
+
+/-- **Not earlier, as a state equation.** Polled before `arrival + max_wait` (and without a permit), the waiting caller
+just keeps waiting: the state does not change at all. -/
+theorem waits_until_deadline (cfg : Cfg) (ops : List Op) (c w t : Nat)
+    (hq : c ∈ (run cfg ops).queue) (ha : c ∉ (run cfg ops).assigned) (hw : cfg.maxWait = some w)
+    (ht : lookup (run cfg ops).firstPoll c = some t) (hnow : (run cfg ops).now < t + w) :
+    stepS cfg (run cfg ops) (.poll c) = run cfg ops := by
+  obtain ⟨t', h1, h2, _⟩ := deadline_is_arrival_plus_wait cfg ops c w hq hw
+  have : t' = t := by rw [ht] at h1; cases h1; rfl
+  subst this
+  obtain ⟨hf, ha', hq'⟩ := waiting_flags (inv2_reachable cfg ops) hq ha
+  exact poll_before_deadline_waits cfg _ c _ hf ha' hq' h2 hnow
+
+/-- Non-vacuity for the four theorems above (`max = 1`, `max_wait = 10`): caller 2 arrives at t = 3 while the slot is
+taken; at t = 12 it is still queued with arrival 3 (`waits_until_deadline` applies); at t = 13 = 3 + 10 its poll is
+answered `err:timeout` (`rejected_at_deadline`, `rejected_not_before_deadline`). -/
+example :
+    let cfg : Cfg := { max := 1, maxWait := some 10 }
+    let ops := [Op.arrive 1 ⟨100, .ok⟩, .poll 1, .adv 3, .arrive 2 ⟨0, .ok⟩, .poll 2, .adv 9, .poll 2]
+    let s := run cfg ops
+    let s' := run cfg (ops ++ [.adv 1])
+    s.queue = [2] ∧ s.assigned = [] ∧ lookup s.firstPoll 2 = some 3 ∧ lookup s.deadline 2 = some 13 ∧ s.now = 12 ∧
+    s'.queue = [2] ∧ s'.now = 13 ∧
+    Ev.result 2 .timeout ∈ (stepS cfg s' (.poll 2)).log.drop s'.log.length := by
+  decide
+
+/-- Non-vacuity for branch (a) of `rejected_not_before_deadline` (`max_wait = 0`): rejected at the arrival itself. -/
+example :
+    let cfg : Cfg := { max := 1, maxWait := some 0 }
+    let s := run cfg [.arrive 1 ⟨100, .ok⟩, .poll 1, .adv 7, .arrive 2 ⟨0, .ok⟩]
+    s.free = 0 ∧ s.fresh = [2] ∧
+    Ev.result 2 .timeout ∈ (stepS cfg s (.poll 2)).log.drop s.log.length ∧
+    lookup (stepS cfg s (.poll 2)).firstPoll 2 = some 7 := by
+  decide
+
+/-! ## `max_wait = none`: never rejected (audit B, C07 last row) -/
+
+/-- **A bulkhead without `max_wait` never rejects anybody**: no `err:timeout` in any reachable log. -/
+theorem never_rejected_without_max_wait (cfg : Cfg) (ops : List Op) (h : cfg.maxWait = none) (c : Nat) :
+    Ev.result c .timeout ∉ (run cfg ops).log := by
+  intro hm
+  obtain ⟨_, _, w, _, _, hw, _, _⟩ := rejection_instant cfg ops c hm
+  rw [h] at hw; cases hw
+
+/-- … a waiting caller polled while it has no permit just keeps waiting, however late it is. -/
+theorem waits_forever_without_max_wait (cfg : Cfg) (ops : List Op) (h : cfg.maxWait = none) (c : Nat)
+    (hq : c ∈ (run cfg ops).queue) (ha : c ∉ (run cfg ops).assigned) :
+    stepS cfg (run cfg ops) (.poll c) = run cfg ops := by
+  obtain ⟨hf, ha', hq'⟩ := waiting_flags (inv2_reachable cfg ops) hq ha
+  have hd : lookup (run cfg ops).deadline c = none := by
+    rw [(waitInv_reachable cfg ops).nodl h]; rfl
+  exact poll_without_deadline_waits cfg _ c hf ha' hq' hd
+
+/-- Non-vacuity: with `max_wait = none` caller 2 is still queued a million ms later, and is served when 1 finishes. -/
+example :
+    let cfg : Cfg := { max := 1, maxWait := none }
+    let ops := [Op.arrive 1 ⟨2000000, .ok⟩, .poll 1, .arrive 2 ⟨0, .ok⟩, .poll 2, .adv 1000000, .poll 2]
+    (run cfg ops).queue = [2] ∧ (run cfg ops).assigned = [] ∧
+    (run cfg (ops ++ [.adv 1000000, .poll 1, .poll 2])).log.getLast? = some (.result 2 (.ok 1)) := by
+  decide
+
+/-! ## "after any history it again admits `max` simultaneous calls" (audit B, C07 clause a: `probe_burst`) -/
+
+/-- **Spare capacity is usable, all of it, at once.** After any history, any set of callers that have never been
+polled and fit into what is not held (`|cs| + running + handed-over ≤ max`), polled once each in ANY order (`cs` is any
+duplicate-free list), all reach the inner service — each in its own first poll — and none of them is rejected. -/
+theorem spare_capacity_admits (cfg : Cfg) (ops : List Op) (cs : List Nat) (hnd : cs.Nodup)
+    (hfr : ∀ c ∈ cs, c ∈ (run cfg ops).fresh)
+    (hlen : cs.length + (run cfg ops).running.length + (run cfg ops).assigned.length ≤ cfg.max) :
+    ∀ c ∈ cs, (∃ k, Ev.innerCall c k ∈ (run cfg (ops ++ cs.map Op.poll)).log) ∧
+      Ev.result c .timeout ∉ (run cfg (ops ++ cs.map Op.poll)).log := by
+  have hc := (inv_reachable cfg ops).count
+  obtain ⟨h1, _⟩ := burst_admitted cfg cs (run cfg ops) (inv_reachable cfg ops) hnd hfr (by omega)
+  intro c hcs
+  rw [run_burst]
+  obtain ⟨k, hk⟩ := h1 c hcs
+  refine ⟨⟨k, hk⟩, ?_⟩
+  intro ht
+  rw [← run_burst] at ht hk
+  exact rejected_never_runs cfg _ c ht k hk
+
+/-- **`probe_burst`: after ANY history, once no call is in flight (and no permit is on its way to a waiter), the
+bulkhead admits `max` calls again.** `max` (or fewer) callers that have never been polled, polled once each in any
+order, all reach the inner service in their own first poll; nobody is rejected. -/
+theorem probe_burst (cfg : Cfg) (ops : List Op) (cs : List Nat)
+    (h1 : (run cfg ops).running = []) (h2 : (run cfg ops).assigned = [])
+    (hnd : cs.Nodup) (hfr : ∀ c ∈ cs, c ∈ (run cfg ops).fresh) (hlen : cs.length ≤ cfg.max) :
+    ∀ c ∈ cs, (∃ k, Ev.innerCall c k ∈ (run cfg (ops ++ cs.map Op.poll)).log) ∧
+      Ev.result c .timeout ∉ (run cfg (ops ++ cs.map Op.poll)).log :=
+  spare_capacity_admits cfg ops cs hnd hfr (by simp [h1, h2]; exact hlen)
+
+/-- **… simultaneously.** If none of the burst's inner calls finishes at once (latency > 0, or never), then after the
+burst all of them are inside the inner service TOGETHER — `running` is exactly the burst, and so is the set of open
+calls read off the event log — and exactly `|cs|` permits are gone. With `|cs| = max` the bulkhead is full again. -/
+theorem probe_burst_simultaneous (cfg : Cfg) (ops : List Op) (cs : List Nat)
+    (h1 : (run cfg ops).running = []) (h2 : (run cfg ops).assigned = [])
+    (hnd : cs.Nodup) (hfr : ∀ c ∈ cs, c ∈ (run cfg ops).fresh) (hlen : cs.length ≤ cfg.max)
+    (hslow : ∀ c ∈ cs, ∀ sc, lookup (run cfg ops).script c = some sc → sc.lat > 0 ∨ sc.out = .never) :
+    (run cfg (ops ++ cs.map Op.poll)).running = cs ∧
+    inflight (run cfg (ops ++ cs.map Op.poll)).log = cs ∧
+    (run cfg (ops ++ cs.map Op.poll)).free = cfg.max - cs.length := by
+  have hfull := quiescent_full cfg ops h1 h2
+  obtain ⟨r1, r2, _, _, _⟩ := burst_simultaneous cfg cs (run cfg ops) (inv2_reachable cfg ops) hnd hfr
+    (by omega) hslow
+  have hrun : (run cfg (ops ++ cs.map Op.poll)).running = cs := by rw [run_burst, r1, h1]; simp
+  refine ⟨hrun, ?_, by rw [run_burst]; omega⟩
+  rw [(logInv_reachable cfg _).fl]; exact hrun
+
+/-- **… and the `(max+1)`-th waits.** After a burst of exactly `max` such calls, one more caller polled for the first
+time does NOT reach the inner service: the `max` calls stay exactly as they are, no `inner_call` for it is logged, and
+it is queued — or, with `max_wait = 0`, rejected with the timeout error in that very step. -/
+theorem probe_burst_overflow (cfg : Cfg) (ops : List Op) (cs : List Nat) (x : Nat)
+    (h1 : (run cfg ops).running = []) (h2 : (run cfg ops).assigned = [])
+    (hnd : cs.Nodup) (hfr : ∀ c ∈ cs, c ∈ (run cfg ops).fresh) (hlen : cs.length = cfg.max)
+    (hslow : ∀ c ∈ cs, ∀ sc, lookup (run cfg ops).script c = some sc → sc.lat > 0 ∨ sc.out = .never)
+    (hx : x ∈ (run cfg ops).fresh) (hxcs : x ∉ cs) :
+    (run cfg (ops ++ cs.map Op.poll ++ [.poll x])).running = cs ∧
+    (∀ k, Ev.innerCall x k ∉ (run cfg (ops ++ cs.map Op.poll ++ [.poll x])).log) ∧
+    ((cfg.maxWait = some 0 ∧ Ev.result x .timeout ∈ (run cfg (ops ++ cs.map Op.poll ++ [.poll x])).log) ∨
+     (cfg.maxWait ≠ some 0 ∧ x ∈ (run cfg (ops ++ cs.map Op.poll ++ [.poll x])).queue)) := by
+  have hfull := quiescent_full cfg ops h1 h2
+  have := burst_overflow cfg (run cfg ops) (inv2_reachable cfg ops) cs x hnd hfr (by omega) hslow hx hxcs
+    (by rw [← run_burst]; exact inv2_reachable cfg _)
+  rw [run_snoc, run_burst]
+  simpa [h1] using this
+
+/-- Non-vacuity for the burst theorems after a non-trivial history (`max = 2`): a panic, a call dropped while running,
+a waiter rejected at its deadline, a waiter dropped while it held a handed-over permit. Afterwards nothing is in flight
+and both permits are free (the hypotheses and conclusion of `quiescent_full`; those of `admit_at_once` for 7, 8 or 9),
+callers 7 and 8 (slow) and 9 are fresh; the burst [8, 7] is admitted in that order and 9 then queues. -/
+example :
+    let cfg : Cfg := { max := 2, maxWait := some 10 }
+    let ops := [Op.arrive 1 ⟨0, .panic⟩, .arrive 2 ⟨5, .never⟩, .arrive 3 ⟨0, .ok⟩, .arrive 4 ⟨0, .ok⟩, .arrive 5 ⟨50, .ok⟩,
+      .poll 5, .poll 2, .poll 3, .poll 4, .adv 10, .poll 3, .drop 2, .drop 4, .poll 1, .adv 50, .poll 5,
+      .arrive 7 ⟨5, .ok⟩, .arrive 8 ⟨1, .never⟩, .arrive 9 ⟨0, .ok⟩]
+    (run cfg ops).running = [] ∧ (run cfg ops).assigned = [] ∧ (run cfg ops).free = 2 ∧ (run cfg ops).fresh = [7, 8, 9] ∧
+    Ev.result 3 .timeout ∈ (run cfg ops).log ∧ Ev.result 1 .panic ∈ (run cfg ops).log ∧
+    (run cfg (ops ++ [.poll 8, .poll 7])).running = [8, 7] ∧
+    (run cfg (ops ++ [.poll 8, .poll 7, .poll 9])).queue = [9] := by
+  decide
+
+/-- **Capacity is never lost — general form, the hypothesis read off the event log alone.** After any history, once
+every inner call that was started has ended (`inflight log = []`), all `max` permits are accounted for — free, or on
+their way to a waiter — and any duplicate-free set of callers made of waiters holding a handed-over permit and of
+never-polled callers (no more of the latter than free permits; so up to `max` callers in all), polled once each in
+any order, all reach the inner service, each in its own poll. (`probe_burst` is the case "nobody holds a handed-over
+permit".) -/
+theorem capacity_restored (cfg : Cfg) (ops : List Op) (bs : List Nat)
+    (h1 : inflight (run cfg ops).log = []) (hnd : bs.Nodup)
+    (hmem : ∀ c ∈ bs, c ∈ (run cfg ops).fresh ∨ c ∈ (run cfg ops).assigned)
+    (hcnt : bs.countP (fun c => (run cfg ops).fresh.contains c) ≤ (run cfg ops).free) :
+    (run cfg ops).free + (run cfg ops).assigned.length = cfg.max ∧
+    ∀ c ∈ bs, ∃ k, Ev.innerCall c k ∈ (run cfg (ops ++ bs.map Op.poll)).log := by
+  rw [(logInv_reachable cfg ops).fl] at h1
+  refine ⟨by have := (inv_reachable cfg ops).count; simp [h1] at this; exact this, ?_⟩
+  rw [run_burst]
+  exact burst_admitted_mixed cfg bs (run cfg ops) hnd hmem hcnt
+
+/-- Non-vacuity for `capacity_restored` (`max = 2`): nothing is in flight, caller 3 holds a permit handed to it when
+caller 1 finished, one permit is free, caller 4 has never been polled; polled in the order 4, 3 both are admitted. -/
+example :
+    let cfg : Cfg := { max := 2, maxWait := none }
+    let ops := [Op.arrive 1 ⟨5, .ok⟩, .arrive 2 ⟨5, .ok⟩, .arrive 3 ⟨9, .ok⟩, .arrive 4 ⟨9, .ok⟩,
+      .poll 1, .poll 2, .poll 3, .adv 5, .poll 1, .poll 2]
+    inflight (run cfg ops).log = [] ∧ (run cfg ops).assigned = [3] ∧ (run cfg ops).fresh = [4] ∧ (run cfg ops).free = 1 ∧
+    (run cfg (ops ++ [.poll 4, .poll 3])).running = [4, 3] := by
+  decide
+
+/-- `admit_at_once` with its capacity hypothesis read off the event log: fewer than `max` open calls in the log. -/
+theorem admit_at_once_log (cfg : Cfg) (ops : List Op) (c : Nat)
+    (hf : (run cfg ops).fresh.contains c = true)
+    (hr : (inflight (run cfg ops).log).length < cfg.max)
+    (ha : (run cfg ops).assigned = []) :
+    ∃ rest, (stepS cfg (run cfg ops) (.poll c)).log
+      = (run cfg ops).log ++ Ev.innerCall c (run cfg ops).serial :: rest := by
+  rw [(logInv_reachable cfg ops).fl] at hr
+  exact admit_at_once cfg ops c hf hr ha
+
+/-! ### the same for every service built from one layer value -/
+
+/-- **Every service gets its full capacity back**: after any multi-service history, once nothing of service `i` is
+in flight, `max` (or fewer) never-polled callers of service `i`, polled once each in any order, all reach its inner
+service — whatever the sibling services hold. -/
+theorem service_probe_burst (cfg : Cfg) (mops : List (Nat × Op)) (i : Nat) (cs : List Nat)
+    (h1 : ((runM cfg mops).insts i).running = []) (h2 : ((runM cfg mops).insts i).assigned = [])
+    (hnd : cs.Nodup) (hfr : ∀ c ∈ cs, c ∈ ((runM cfg mops).insts i).fresh) (hlen : cs.length ≤ cfg.max) :
+    ∀ c ∈ cs, ∃ k, Ev.innerCall c k ∈ ((burstM cfg (runM cfg mops) i cs).insts i).log := by
+  rw [burstM_inst]
+  rw [runM_synced] at h1 h2 hfr ⊢
+  intro c hc
+  have := (probe_burst cfg _ cs h1 h2 hnd hfr hlen c hc).1
+  rw [run_burst] at this
+  exact this
+
+/-- In every service: the deadline of a waiting caller is its arrival plus `max_wait`; without `max_wait` nobody is
+ever rejected. -/
+theorem service_wait_exact (cfg : Cfg) (mops : List (Nat × Op)) (i : Nat) :
+    (∀ c w, c ∈ ((runM cfg mops).insts i).queue → cfg.maxWait = some w →
+      ∃ t, lookup ((runM cfg mops).insts i).firstPoll c = some t ∧
+        lookup ((runM cfg mops).insts i).deadline c = some (t + w) ∧ t ≤ ((runM cfg mops).insts i).now) ∧
+    (cfg.maxWait = none → ∀ c, Ev.result c .timeout ∉ ((runM cfg mops).insts i).log) := by
+  rw [runM_synced]
+  exact ⟨fun c w hq hw => deadline_is_arrival_plus_wait cfg _ c w hq hw,
+    fun h c => never_rejected_without_max_wait cfg _ h c⟩
 
 end TR.Props.C07
